@@ -2,6 +2,8 @@ package checks
 
 import (
 	"strings"
+	"sort"
+	"unicode"
 )
 
 // "Pumped" and "character sweep" families: bounded exhaustive enumeration along
@@ -28,7 +30,68 @@ func init() {
 		boundaryChars = append(boundaryChars, 0x100+c, 0x10000+c)
 	}
 	boundaryChars = append(boundaryChars, 0x2000+'=', 0x20000+'<', 0x100000+'{')
+	// and the first and last character of every Unicode general category not already present
+	have := map[rune]bool{}
+	for _, c := range boundaryChars {
+		have[c] = true
+	}
+	for _, c := range categoryChars {
+		if !have[c] {
+			boundaryChars = append(boundaryChars, c)
+		}
+	}
 }
+
+// categoryChars: the first and the last character of every Unicode general category, its first character past U+00FF and its last one up to U+FFFE (a rule that
+// singles out a class of characters - marks, format characters, separators, digits of another
+// script - shows on one of these), sorted, without duplicates
+var categoryChars = func() []rune {
+	seen := map[rune]bool{}
+	out := []rune{}
+	names := []string{}
+	for name := range unicode.Categories {
+		if len(name) == 2 {
+			names = append(names, name)
+		}
+	}
+	sort.Strings(names)
+	for _, name := range names {
+		t := unicode.Categories[name]
+		// first, last, the first one past Latin-1 and the last one the character tables can hold
+		var first, last, firstWide, lastBMP rune = -1, -1, -1, -1
+		see := func(lo, hi rune) {
+			if first < 0 {
+				first = lo
+			}
+			last = hi
+			if firstWide < 0 && hi > 0xff {
+				firstWide = lo
+				if firstWide <= 0xff {
+					firstWide = 0x100
+				}
+			}
+			if lo <= 0xfffe {
+				lastBMP = hi
+				if lastBMP > 0xfffe {
+					lastBMP = 0xfffe
+				}
+			}
+		}
+		for _, r := range t.R16 {
+			see(rune(r.Lo), rune(r.Hi))
+		}
+		for _, r := range t.R32 {
+			see(rune(r.Lo), rune(r.Hi))
+		}
+		for _, ch := range []rune{first, last, firstWide, lastBMP} {
+			if ch >= 0 && !seen[ch] && !(ch >= 0xd800 && ch <= 0xdfff) {
+				seen[ch] = true
+				out = append(out, ch)
+			}
+		}
+	}
+	return out
+}()
 
 func pumped(pattern string, k int) string { return strings.Repeat(pattern, k) }
 
